@@ -10,7 +10,7 @@ TStep ==
   /\ l' = l + 1
   /\ UNCHANGED <<st, last>>
   /\ LET e == T[l]
-         why == IF e.op = "spawn" THEN SpawnWhy(e) ELSE IF e.op = "spawn2" THEN Spawn2Why(e) ELSE "ok"
+         why == IF e.op = "spawn" THEN SpawnWhy(e) ELSE IF e.op = "spawn2" THEN Spawn2Why(e) ELSE IF e.op = "spawnlate" THEN SpawnLateWhy(e) ELSE "ok"
      IN IF why = "ok" THEN UNCHANGED nbad
         ELSE PrintT(<<"MISMATCH", l, why>>) /\ nbad' = nbad + 1
 TDone == l = Len(T) + 1 /\ PrintT(<<"TRACE-DONE", Len(T), nbad>>) /\ l' = l + 1 /\ UNCHANGED <<st, last, nbad>>
